@@ -415,6 +415,10 @@ func (in *interp) prepareCall(fr *frame, call *ssa.CallCommon) (fn value, args [
 		if _, ok := recv.v.(hole); ok {
 			return nil, nil, true
 		}
+		if rb, ok := recv.v.(rtypeBox); ok {
+			name := call.Method.Name()
+			return &hostFunc{name: "reflect.Type." + name, f: func(in *interp, args []value) value { return rtypeMethod(rb, name) }}, nil, false
+		}
 		f := in.lookupMethod(recv.t, call.Method)
 		if f == nil {
 			panic(fmt.Sprintf("method set for dynamic type %v does not contain %s", recv.t, call.Method))
